@@ -51,7 +51,7 @@ inline std::string gen_scenario(const unsigned char *data, size_t size, const st
   // ---- options
   std::string flags; auto addflag = [&](const char *f) { if (!flags.empty()) flags += ","; flags += f; };
   bool edns = !c.chance(1, 4); if (edns || pf.cookies) addflag("EDNS");
-  if (c.chance(1, 6) && prop != "C17") addflag("USEVC");
+  if ((c.chance(1, 6) || (prop == "C20" && c.chance(1, 2))) && prop != "C17") addflag("USEVC");
   if (c.chance(1, 8)) addflag("IGNTC");
   if (c.chance(1, 4)) addflag("STAYOPEN");
   if (c.chance(1, 5)) addflag("DNS0x20");
@@ -78,15 +78,16 @@ inline std::string gen_scenario(const unsigned char *data, size_t size, const st
   { static const char *lk[] = {"b", "bf", "fb", "f"}; if (pf.addr || c.chance(1, 6)) o += std::string(" lookups=") + lk[c.pick(4)]; }
   o += "\n";
   unsigned nserv = 1 + c.pick(pf.failover ? 5 : 3);
+  if (prop == "C20") nserv = 1;   // with several servers the choice of the next server depends on how replies are batched into reads, which segmentation legitimately changes
   o += "servers";
   for (unsigned i = 0; i < nserv; i++) { if (c.chance(1, 6)) o += " [fd00::" + std::to_string(i + 1) + "]:53"; else o += " 10.0.0." + std::to_string(i + 1) + (c.chance(1, 8) ? ":5353" : ""); }
   o += "\n";
   // ---- server behaviour
   {
-    static const char *ws[] = {"answer=6 nxdomain=1 nodata=1 servfail=1 silence=2 tc=1", "answer=1", "answer=3 silence=3", "answer=2 nxdomain_soa=2 nodata_soa=2 nxdomain=1 nodata=1", "answer=4 servfail=2 refused=1 notimp=1 formerr=1 formerr_opt=1", "answer=3 tc=2 garbage=1 empty=1 dup=1 delay=2", "silence=1", "answer=3 reset=1 eofmid=1 tc=2 silence=1", "answer=4 delay=3 dup=1", "answer=2 badcookie=2 silence=1"};
-    unsigned wi = c.pick(10); if (prop == "C06" && c.chance(1, 3)) wi = 6; if (prop == "C08" || prop == "C13") wi = c.chance(2, 3) ? 3 : 1; if (prop == "C12") wi = 3; if (prop == "C17") wi = c.chance(1, 2) ? 9 : 1; if (prop == "C20") wi = c.chance(1, 2) ? 5 : 1;
+    static const char *ws[] = {"answer=6 nxdomain=1 nodata=1 servfail=1 silence=2 tc=1", "answer=1", "answer=3 silence=3", "answer=2 nxdomain_soa=2 nodata_soa=2 nxdomain=1 nodata=1", "answer=4 servfail=2 refused=1 notimp=1 formerr=1 formerr_opt=1", "answer=3 tc=2 garbage=1 empty=1 dup=1 delay=2", "silence=1", "answer=3 reset=1 eofmid=1 tc=2 silence=1", "answer=4 delay=3 dup=1", "answer=2 badcookie=2 silence=1", "answer=4 nxdomain=1 nodata_soa=1 tc=3 empty=2 dup=1 servfail=1", "answer=3 tc=2 empty=1"};
+    unsigned wi = c.pick(10); if (prop == "C06" && c.chance(1, 3)) wi = 6; if (prop == "C08" || prop == "C13") wi = c.chance(2, 3) ? 3 : 1; if (prop == "C12") wi = 3; if (prop == "C17") wi = c.chance(1, 2) ? 9 : 1; if (prop == "C20") wi = 10 + c.pick(2);
     o += std::string("weights ") + ws[wi] + "\n";
-    unsigned nr = c.pick(3);
+    unsigned nr = prop == "C20" ? 0 : c.pick(3);
     for (unsigned i = 0; i < nr; i++) o += "rule " + (c.chance(1, 2) ? std::string("*") : std::to_string(c.pick(nserv))) + " " + (c.chance(1, 2) ? std::string("*") : "r" + std::to_string(1 + c.pick(pf.max_reqs))) + " " + (c.chance(1, 2) ? std::string("*") : std::to_string(c.pick(3))) + " " + kOutcomeNames[c.pick(O__COUNT)] + "\n";
     if (pf.cookies || c.chance(1, 5)) for (unsigned i = 0; i < nserv; i++) { static const char *cm[] = {"valid", "valid", "none", "changing", "wrongclient", "short"}; o += "cookie " + std::to_string(i) + " " + cm[c.pick(6)] + "\n"; }
   }
@@ -127,6 +128,7 @@ inline std::string gen_scenario(const unsigned char *data, size_t size, const st
       o += "\n";
       if (inject_now) { static const char *ik[] = {"wrongid", "wrongname", "wrongtype", "wrongclass", "wrongcase", "wrongsrc", "wrongsock", "late", "nocookie", "badclientcookie"}; if (c.chance(1, 3)) o += "adv timeout\nstep\n"; o += std::string("inject ") + ik[c.pick(10)] + " " + std::to_string(id) + "\n"; if (c.chance(1, 2)) o += "step\n"; }
     } else if (k < 12) o += "step\n";
+    else if (k < 14 && prop == "C20") o += "step\n";   // (no clock jumps: a deadline passing while half a message is buffered is a race with the application, not a segmentation effect)
     else if (k < 14) { static const char *adv[] = {"timeout", "1ms", "137ms", "2s", "timeout-1", "300s", "86400s", "120s", "999999us", "5s"}; o += std::string("adv ") + adv[c.pick(10)] + "\n"; }
     else if (k == 14 && pf.cancel) o += "cancel\n";
     else if (k == 15 && pf.reconfig) { if (c.chance(1, 2)) o += "reinit\n"; else { o += "setservers"; unsigned n = 1 + c.pick(3); for (unsigned j = 0; j < n; j++) o += " 10.0.0." + std::to_string(1 + c.pick(5)); o += "\n"; } }
